@@ -529,6 +529,20 @@ static void engine_fault_impl(RunCtx& cx) {
                                                                                       " raw bytes) but only " + std::to_string(p.closed_raw[k].size()) + " raw bytes reached the output");
                         V("I15/unreported-loss", "rotate_output returned normally although " + mo.name + " lost bytes (" + std::to_string(p.closed_raw[k].size()) + " bytes on the medium, " +
                                                      std::to_string(p1.closed_raw[k].size()) + " in the fault-free run) and no exception had been delivered");
+                        // no call reported anything: for the application this output was finished normally, so it has to be a document
+                        {
+                            std::string plain, err;
+                            bool okd = true;
+                            if (p.plan.sw.compression == 1) okd = model::gunzip_exact(p.closed_raw[k], plain, err);
+                            else if (p.plan.sw.compression == 2) okd = model::unxz_exact(p.closed_raw[k], plain, err);
+                            else plain = p.closed_raw[k];
+                            if (okd && !plain.empty()) { try { ref::Interp::file(plain); } catch (std::exception& e) { okd = false; err = e.what(); } }
+                            if (!okd) {
+                                std::string d = mo.name + " was closed by a rotate_output that returned normally, no call had thrown, and it is not a valid C-DNS file: " + err;
+                                cx.violation("C02", "C02/I02/finished-output-invalid-although-nothing-was-reported", d);
+                                cx.violation("C13", "C13/I12/closed-output-not-a-complete-file/nothing-reported", d);
+                            }
+                        }
                     } else {
                         cx.ctr->add("probe.fault_absorbed_without_loss");
                     }
